@@ -10,7 +10,12 @@ REL = {"S-C01": ["C01", "C08", "C03", "C09"], "S-C02": ["C02", "C01", "C03", "C0
        "S2-C01": ["C01", "C02", "C03", "C07"], "S2-C02": ["C02", "C01", "C03"], "S2-C03": ["C03", "C01", "C08"], "S2-C04": ["C04"],
        "S2-C05": ["C05", "C07", "C09"], "S2-C06": ["C06", "C05"], "S2-C07": ["C07", "C09"], "S2-C08": ["C08", "C09"], "S2-C09": ["C09", "C08"],
        "S2-C10": ["C10", "C09"], "S2-C11": ["C11"], "S2-C12": ["C12", "C09", "C13"], "S2-C13": ["C13", "C12"], "S2-C14": ["C14"],
-       "S2-C15": ["C15", "C09"], "S2-C16": ["C16"], "S2-C17": ["C17", "C08"], "S2-C18": ["C18", "C10"], "S2-C19": ["C19"], "S2-C20": ["C20", "C19"]}
+       "S2-C15": ["C15", "C09"], "S2-C16": ["C16"], "S2-C17": ["C17", "C08"], "S2-C18": ["C18", "C10"], "S2-C19": ["C19"], "S2-C20": ["C20", "C19"],
+       "S3-C01": ["C01", "C08", "C09", "C17"], "S3-C02": ["C02", "C01", "C03"], "S3-C03": ["C03", "C01", "C08"], "S3-C04": ["C04", "C08"],
+       "S3-C05": ["C05", "C07", "C09"], "S3-C06": ["C06", "C05"], "S3-C07": ["C07", "C01", "C09"], "S3-C08": ["C08", "C17", "C03"],
+       "S3-C09": ["C09", "C08", "C12"], "S3-C10": ["C10", "C15"], "S3-C11": ["C11", "C13"], "S3-C12": ["C12"], "S3-C13": ["C13", "C12"],
+       "S3-C14": ["C14"], "S3-C15": ["C15", "C17", "C09"], "S3-C16": ["C16", "C09"], "S3-C17": ["C17", "C08"], "S3-C18": ["C18", "C10"],
+       "S3-C19": ["C19"], "S3-C20": ["C20", "C19"]}
 only = sys.argv[1:] 
 out = {}
 mp = VERIF / "seeded" / "MATRIX.json"
